@@ -1,3 +1,2 @@
 SPECIFICATION Spec
-INVARIANT AllCellsDefined
 CHECK_DEADLOCK FALSE
